@@ -201,6 +201,18 @@ func IsFailureReturn(r *ssa.Return) bool {
 		return false
 	}
 	v := r.Results[idx]
+	// defer-spilled results: `*res = x; rundefers; t = *res; return t` — classify by the value stored last in this block
+	if u, ok := v.(*ssa.UnOp); ok && u.Op == token.MUL {
+		if a, ok := u.X.(*ssa.Alloc); ok {
+			instrs := r.Block().Instrs
+			for k := len(instrs) - 1; k >= 0; k-- {
+				if st, ok := instrs[k].(*ssa.Store); ok && st.Addr == a {
+					v = st.Val
+					break
+				}
+			}
+		}
+	}
 	if isNilConst(v) {
 		return false
 	}
